@@ -224,6 +224,9 @@ def run(cx):
                 inst.violation(db.path, "Pending arm", "no Pending arm found (anchor)")
     from props.shared import heap_order
     heap_order(cx, "C09.k", ["event"])
+    # the 22 s retry budget is measured on the endpoint's clock
+    from props.shared import clock_exact
+    clock_exact(cx, "C09.s")
     # a resend entry must name the frame its datagram actually left in: a fragment closed into the previous frame
     # but logged under the next one is never resent when that frame is lost, and the flush never completes
     from props.shared import resend_ref_in_own_frame
